@@ -3,7 +3,9 @@ ENTRY = {
     'coq_dir': 'C18',
     'harness': 'c18',
     'cases': {'quick': 15000, 'thorough': 400000},
-    'consts': ['MAX_INLINE_KEY_LENGTH', 'MULTIHASH_IDENTITY_CODE', 'PEER_ID_MULTIHASH_SIZE', 'PEER_ID_SITES'],
+    'consts': ['MAX_INLINE_KEY_LENGTH', 'MULTIHASH_IDENTITY_CODE', 'PEER_ID_MULTIHASH_SIZE', 'PEER_ID_SITES',
+               'PEER_ID_PARSE_SITES', 'PEER_ID_ADMITTED_KEY_TYPES', 'C18_KEY_TYPE_RSA', 'C18_KEY_TYPE_ED25519',
+               'C18_KEY_TYPE_SECP256K1', 'C18_KEY_TYPE_ECDSA'],
     'nontrivial_min_trace': 4,
     # second build of the harness with the cargo features under which the TLS certificate parser (QUIC) and RSA
     # identity keys exist; thorough tier only (the build alone takes minutes)
